@@ -32,6 +32,7 @@ type c09gen struct {
 	dictP  float64 // probability that a year comes from DictYears
 	wide   bool    // wide history: every operation draws a fresh year from the whole range
 	lastSx float64
+	jzBase int
 }
 
 var focusKinds = map[string][]string{
@@ -42,7 +43,7 @@ var focusKinds = map[string][]string{
 	"holiday": {"holiday", "holidays_ym", "holidays_year", "holidays_target", "solar_next", "salary"},
 	"nav":     {"week", "smonth", "season", "halfyear", "syear", "week0", "smonth0", "season0", "halfyear0", "syear0", "week0", "smonth0"},
 	"jd":      {"jd2solar", "jd2solar", "jd2solar", "solar", "solar_next"},
-	"util":    {"su_days", "su_days", "su_between", "solar_rel", "lu_day", "lu_xun", "sx", "sx", "sx", "sx", "foto_xiu"},
+	"util":    {"su_days", "su_days", "su_between", "solar_rel", "lu_day", "lu_day", "lu_day", "lu_xun", "sx", "sx", "sx", "sx", "foto_xiu"},
 	"fortune": {"eightchar", "yun", "bazi"},
 }
 
@@ -272,6 +273,27 @@ func (g *c09gen) baseOp() ops.Op {
 		}
 		return ops.Op{K: k, A: append(a, b...)}
 	case "lu_day":
+		if g.focus == "util" {
+			// narrow domain: a handful of pillars per run (around a per-run base, plus the ends of the cycle) and
+			// now and then an unrecognised one, so that neighbouring and colliding keys meet within one run
+			if g.jzBase == 0 {
+				g.jzBase = 1 + r.Intn(59)
+			}
+			pick := func() string {
+				switch r.Weighted([]int{50, 15, 15, 20}) {
+				case 0:
+					return jiaZi((g.jzBase + r.Intn(3)) % 60)
+				case 1:
+					return jiaZi(59)
+				case 2:
+					return jiaZi(0)
+				default:
+					return r.PickS([]string{"", "?", "甲", "癸亥 ", "子甲", "xx"})
+				}
+			}
+			day := jiaZi((g.jzBase + r.Intn(3)) % 60)
+			return ops.Op{K: k, A: []int{r.Range(1, 12)}, S: []string{pick(), day, jiaZi((g.jzBase + r.Intn(3)) % 60)}}
+		}
 		return ops.Op{K: k, A: []int{r.Range(1, 12)}, S: []string{jiaZi(r.Intn(60)), jiaZi(r.Intn(60)), jiaZi(r.Intn(60))}}
 	case "lu_xun":
 		return ops.Op{K: k, S: []string{jiaZi(r.Intn(60)), fmt.Sprintf("%02d:%02d", r.Intn(24), r.Intn(60))}}
